@@ -6,7 +6,7 @@ OFF = {'Clipper2Lib::ClipperOffset::AddPaths(': 'stub_off_addpaths', 'Clipper2Li
 META = dict(
   level_text='Bounded model checking of the real marshalling functions (round trip, header fields, every access inside the allocation by CBMC bounds checks) for all coordinate values on a family of path-set shapes, and stub-and-observe checks of the exported functions: the engine entry points are replaced at IR level by recorders and the solver shows, for all argument values, that each recorder saw exactly the corresponding argument and that the returned array is the marshalled recorder output.',
   level_note='Shapes (path counts and lengths) are concrete per obligation and listed in the evidence; coordinates, z values and all scalar arguments are symbolic. Recorders replace ClipperBase::AddPaths/ExecuteInternal/CleanUp, Clipper64::BuildPaths64, ClipperOffset::AddPath(s)/Execute: what those do with the arguments is the subject of other properties.',
-  functions=['CreateCPathsFromPathsT<long>', 'ConvertCPathsToPathsT<long>', 'ConvertCPathToPathT<long>', 'GetPathCountAndCPathsArrayLen<long>', 'BooleanOp64', 'InflatePaths64', 'InflatePath64', 'Clipper64::Execute (inline wrappers)', 'ClipperOffset::ClipperOffset'],
+  functions=['CreateCPathsFromPathsT<long>', 'ConvertCPathsToPathsT<long>', 'ConvertCPathToPathT<long>', 'GetPathCountAndCPathsArrayLen<long>', 'BooleanOp64', 'InflatePaths64', 'InflatePath64', 'Clipper64::Execute (inline wrappers)', 'ClipperOffset::ClipperOffset', 'CreateCPolyTree64', 'CreateCPolyPath64', 'GetPolyPathArrayLen64', 'RectClip64 (export)', 'RectClipLines64 (export)', 'CRectToRect', 'CRectIsEmpty'],
   assumptions=['path-set shapes: 3 paths with lengths from {0,1,2} (all-empty, leading/trailing/middle empty); single 3-point paths for the forwarding harnesses'],
   outside=['polytree layouts with more than the listed shapes', 'paths longer than 3 points'],
 )
@@ -16,7 +16,12 @@ for (l0, l1, l2) in [(2, 0, 1), (0, 0, 0), (0, 2, 0), (1, 1, 2)]:
         OBLIGATIONS.append(O('C17.a-roundtrip64-%d%d%d%s' % (l0, l1, l2, '-z' if z else ''), 'c17_export.cpp', 'harness_roundtrip64', defs=['L0=%d' % l0, 'L1=%d' % l1, 'L2=%d' % l2], usingz=z, unwind=5,
                              tiers='qt' if (l0, l1, l2) in [(2, 0, 1), (0, 0, 0)] else 't',
                              bound='3 paths of lengths (%d,%d,%d), all int64 coordinates%s' % (l0, l1, l2, ' and z' if z else ''), desc='Convert(Create(p)) == p minus empty paths; array[0] == elements written; array[1] == non-empty count; all accesses in bounds'))
+RCX = {'Clipper2Lib::RectClip64::Execute(': 'stub_rc_execute', 'Clipper2Lib::RectClipLines64::Execute(': 'stub_rcl_execute'}
 OBLIGATIONS += [
+  O('C17.c-rectclipd-export-two-calls', 'c17_export.cpp', 'harness_rectclipd_export', replace=dict(RCX, pow='stub_pow'), unwind=10, timeout=300, backend=['sat', 'cadical'], bound='two consecutive calls with arbitrary precisions 0..4 (RectClipD and RectClipLinesD), concrete coordinates', desc='each call scales rectangle and paths by 10^its own precision and descales the result; out-of-range precision rejected'),
+  O('C17.b-polytree-layout', 'c17_export.cpp', 'harness_polytree_layout', unwind=6, bound='tree { a(3 pts) { b(3 pts) }, c(4 pts) }, all coordinates; empty tree', desc='CreateCPolyTree64 writes exactly array_len elements in the documented nested layout'),
+  O('C17.b-polytree-layout-z', 'c17_export.cpp', 'harness_polytree_layout', usingz=True, unwind=6, tiers='t', bound='as above, USINGZ', desc='as above with z'),
+  O('C17.c-rectclip64-export', 'c17_export.cpp', 'harness_rectclip64_export', replace=RCX, unwind=10, bound='all rectangles (incl. empty), RectClip64 and RectClipLines64', desc='rectangle and paths forwarded unchanged; empty rectangle and null paths rejected; result marshalled'),
   O('C17.a-roundtrip-path64', 'c17_export.cpp', 'harness_roundtrip_path64', unwind=5, bound='one 2-point path', desc='ConvertCPathToPathT reads back a path record'),
   O('C17.c-booleanop64', 'c17_export.cpp', 'harness_booleanop64', replace=ENG, unwind=5, bound='all cliptype/fillrule bytes, flags; 3-point subject/open/clip', desc='BooleanOp64 forwards clip type, fill rule, both flags and the three path sets to the engine; rejects bad bytes before touching it; returns the marshalled result'),
   O('C17.c-booleanop64-z', 'c17_export.cpp', 'harness_booleanop64', replace=ENG, usingz=True, unwind=5, bound='as above, USINGZ', desc='same with USINGZ', tiers='t'),
